@@ -244,11 +244,17 @@ def write_model_input(path, cases, aux):
         for c in cases:
             u = int(c.cfg.get('u', 8))
             mx = CMAX[c.cfg.get('ctype', 'usize')]
+            if c.st == 'td':
+                # scale function kind and delta of the case (all instances of a case share them)
+                for op, res, w in c.ops:
+                    if op[0] == 'new':
+                        u = {'K0': 0, 'K1': 1, 'K2': 2, 'K3': 3}[op[2]]; mx = int(op[3])
+                        break
             f.write('C %s %d %d\n' % (c.st, u, mx))
             for iv, v, fin in c.h:
                 f.write('H %d %d %d\n' % (0 if iv is None else iv + 1, 0 if v is None else v + 1, fin))
-            for n_, q0, lm in c.l:
-                f.write('L %d %d %d\n' % (n_, q0, lm))
+            # (the L lines are no longer needed by the t-digest replay: the model computes its own limits; they are
+            #  replayed separately on the scale-function model)
             ops = translate_ops(c, aux)
             for line, _ in ops:
                 f.write(line + '\n')
